@@ -36,6 +36,9 @@ pub struct SinkFail {
     pub s: usize,
     pub op: Op,
     pub k: usize,
+    /// only this operation fails (persistently); the sink's other operations keep succeeding
+    #[serde(default)]
+    pub only_op: bool,
 }
 
 #[derive(Clone, Debug, Serialize, Deserialize)]
@@ -230,7 +233,7 @@ pub fn gen_script(rng: &mut Rng, flags: GenFlags) -> PsScript {
         let mut cands: Vec<usize> = (0..n_subs).collect();
         rng.shuffle(&mut cands);
         for s in cands.into_iter().take(nf) {
-            fails.push(SinkFail { s, op: *rng.pick(&Op::ALL), k: rng.usize(0, 6) });
+            fails.push(SinkFail { s, op: *rng.pick(&Op::ALL), k: rng.usize(0, 6), only_op: rng.chance(1, 3) });
         }
     }
     PsScript { wake_driven, n_pubs, boundaries, gates, fails, steps }
@@ -443,6 +446,7 @@ pub fn execute(prop: &str, sc: &PsScript, opts: &ExecOpts) -> Outcome {
         for f in &sc.fails {
             if f.s < w.sinks.len() {
                 w.sinks[f.s].fail_at = Some((f.op, f.k));
+                w.sinks[f.s].fail_sticky = !f.only_op;
             }
         }
         for _ in 0..sc.n_pubs {
